@@ -83,7 +83,8 @@ impl LayerContents {
             })
             .collect::<Result<_, _>>()?;
         // we always need a default layer, so add an empty one if it's filtered
-        if !filter.includes_default_layer() {
+        // (a custom filter may have loaded it even if it isn't generally included)
+        if !filter.includes_default_layer() && !layers.iter().any(Layer::is_default) {
             layers.push(Layer::default());
         }
 
